@@ -21,7 +21,7 @@ def run(ctx):
     cov = core.proof_gate(ctx.pid, PROPS, ["MV.Props.C07"] if ctx.tier == "thorough" else None)
     cov["checker_cmd"] = "cd lean && lake build MV mvdriver && lake env lean <#print axioms for every theorem of MV/Props/C07.lean>"
     cov["trusted_base"] = core.TRUSTED_BASE + ["`#define private public` access to Manifold::GetCsgLeafNode() in harness/progs.h"]
-    cs, stats = xc.build_and_run(ctx, "c07_export", 400 if ctx.tier == "quick" else 6000)
+    cs, stats = xc.build_and_run(ctx, "c07_export", 1500 if ctx.tier == "quick" else 12000)
     cov["checkmerge_verdicts"] = xc.checkmerge(ctx, cs)
     ex = [c for c in cs if xc.kind(c) != "checkmerge"]
     xc.report_findings(ctx, ex, "C07 provenance oracle on the real GetMeshGL64 output")
